@@ -1,53 +1,60 @@
 """Per-property table used by run.py: which harness tests decide a property, with what budgets."""
 
-CHECKS = {
-    "C05": {
-        "level": "exploration",
-        "rule": ("op sequences over {delete, insert, bool, put/merge x 2/4/8-byte, byte strings of length 0..65535} x offset moves "
-                 "{same,+1,+small,>=128,>=16384,>=2^21,backwards,block jump,back to block 0,revisit}: exhaustively all short sequences over an "
-                 "80-letter alphabet (see exhaustive_over) and randomly (rapid) up to length 300; oracle = the written list, compared with "
-                 "Seek+Next, Range per block, Clone, Buffer/Commit codec, Log.Append/Range and a merge->put swap pass. "
-                 "non-trivial = the sequence has >=2 of {negative delta, block switch, >=3-byte varint delta, interleaved blocks, "
-                 "swap with different length}; distinct = hash of the rendered op list"),
-        "assumptions": ["offsets < 2^31 and byte strings <= 65535 bytes (format limits)",
-                        "merge operations always carry a value (as every caller in kelindar/column does)"],
-        "tests": [
-            {"run": "^TestC05Exhaustive$", "timeout": {"quick": 600, "thorough": 3000}},
-            {"run": "^TestC05Random$", "checks": {"quick": 8000, "thorough": 40000}, "shards": {"quick": 1, "thorough": 16},
-             "timeout": {"quick": 600, "thorough": 3000}},
-        ],
-    },
-    "C01": {
-        "level": "exploration",
-        "rule": ("model-based stateful histories (rapid t.Repeat): generated schema (1..6 columns from all 14 value kinds + optional key column, "
-                 "late columns, custom merge functions, every Capacity option) and actions {txn of 1..12 steps (update/insert/delete/own-insert update; "
-                 "puts and merges through 5 writer paths), prefill (1..70, word sizes, 16384+-3, ~33000 rows), patterned bulk delete, create late column}; "
-                 "oracle = independent in-memory reference model; after every transaction Count and every touched row through two of four reader paths, "
-                 "full Range dump when <=200 rows, full dumps at the end (typed and Any readers, point reads). "
-                 "non-trivial = the final state is non-empty and the history has >=1 of {row in block>=1, offset reused after delete, >=2 writes to one "
-                 "row+column in one txn, descending offsets in one txn, late column written}; distinct = hash of the full action trace"),
-        "assumptions": ["values are in the documented domain (strings <= 65535 bytes; SetAny/SetMany values have the column's Go type)",
-                        "writes target rows that are live when issued (writes to dead offsets are outside the property)",
-                        "histories are bounded: <= 3 blocks (offsets < 49152), ~30 actions, <= 12 steps per transaction"],
-        "tests": [
-            {"run": "^TestC01$", "checks": {"quick": 300, "thorough": 2500}, "shards": {"quick": 1, "thorough": 16},
-             "timeout": {"quick": 900, "thorough": 3400}},
-        ],
-    },
-    "C02": {
-        "level": "exploration",
-        "rule": ("model-based stateful histories in which every transaction draws its ending (commit / error after step k), may contain failing "
-                 "inserts, deletes and key operations; oracles: (a) reference model after every transaction, (b) metamorphic twin collection that "
-                 "runs the same history WITHOUT the rolled-back transactions - answers of every step incl. the offsets of all later inserts, full dumps, "
-                 "Count and key lookups must be identical, (c) a recording commit.Logger must receive nothing for a rolled-back transaction, "
-                 "(d) in-flight observation at a drawn point inside the body: a second transaction's full Range dump, Count, a Snapshot+Restore and the "
-                 "transaction's own reads must all show the pre-transaction state. non-trivial = a rollback of a transaction that had buffered a "
-                 "successful insert, delete or key write, or an in-flight observation of a transaction with >=1 buffered change; distinct = hash of the trace"),
-        "assumptions": ["in-flight observation happens from the same goroutine between two steps of the body (no latch is held there)",
-                        "generator exclusions driven by known findings are counted in coverage.excluded_by_known_finding"],
-        "tests": [
-            {"run": "^TestC02$", "checks": {"quick": 250, "thorough": 2500}, "shards": {"quick": 1, "thorough": 16},
-             "timeout": {"quick": 900, "thorough": 3400}},
-        ],
-    },
-}
+CHECKS = {'C01': {'level': 'exploration',
+         'rule': 'model-based stateful histories (rapid t.Repeat): generated schema (1..6 columns from all 14 value kinds + optional key column, '
+                 'late columns, custom merge functions, every Capacity option) and actions {txn of 1..12 steps (update/insert/delete/own-insert '
+                 'update; puts and merges through 5 writer paths), prefill (1..70, word sizes, 16384+-3, ~33000 rows), patterned bulk delete, create '
+                 'late column}; oracle = independent in-memory reference model; after every transaction Count and every touched row through two of '
+                 'four reader paths, full Range dump when <=200 rows, full dumps at the end (typed and Any readers, point reads). non-trivial = the '
+                 'final state is non-empty and the history has >=1 of {row in block>=1, offset reused after delete, >=2 writes to one row+column in '
+                 'one txn, descending offsets in one txn, late column written}; distinct = hash of the full action trace',
+         'assumptions': ["values are in the documented domain (strings <= 65535 bytes; SetAny/SetMany values have the column's Go type)",
+                         'writes target rows that are live when issued (writes to dead offsets are outside the property)',
+                         'histories are bounded: <= 3 blocks (offsets < 49152), ~30 actions, <= 12 steps per transaction'],
+         'tests': [{'run': '^TestC01$',
+                    'checks': {'quick': 300, 'thorough': 2500},
+                    'shards': {'quick': 1, 'thorough': 16},
+                    'timeout': {'quick': 900, 'thorough': 3400}}]},
+ 'C02': {'level': 'exploration',
+         'rule': 'model-based stateful histories in which every transaction draws its ending (commit / error after step k), may contain failing '
+                 'inserts, deletes and key operations; oracles: (a) reference model after every transaction, (b) metamorphic twin collection that '
+                 'runs the same history WITHOUT the rolled-back transactions - answers of every step incl. the offsets of all later inserts, full '
+                 'dumps, Count and key lookups must be identical, (c) a recording commit.Logger must receive nothing for a rolled-back transaction, '
+                 "(d) in-flight observation at a drawn point inside the body: a second transaction's full Range dump, Count, a Snapshot+Restore and "
+                 "the transaction's own reads must all show the pre-transaction state. non-trivial = a rollback of a transaction that had buffered a "
+                 'successful insert, delete or key write, or an in-flight observation of a transaction with >=1 buffered change; distinct = hash of '
+                 'the trace',
+         'assumptions': ['in-flight observation happens from the same goroutine between two steps of the body (no latch is held there)',
+                         'generator exclusions driven by known findings are counted in coverage.excluded_by_known_finding'],
+         'tests': [{'run': '^TestC02$',
+                    'checks': {'quick': 250, 'thorough': 2500},
+                    'shards': {'quick': 1, 'thorough': 16},
+                    'timeout': {'quick': 900, 'thorough': 3400}}]},
+ 'C03': {'level': 'exploration',
+         'rule': 'model-based stateful histories (as C01, with rollbacks and key operations) plus actions createIndex(col, predicate)/dropIndex at '
+                 'arbitrary points, up to 4 live indexes, several per column; predicate families: numeric threshold (<,>=) and parity decoded with '
+                 "the column's width, string/enum/key/record equality, prefix and length, bool truth. Oracle: after EVERY action each index's "
+                 'With().Range set, With().Count() and Row.Bool() on touched rows equal the model predicate over live model rows; at the end the '
+                 'same on four derived collections: stream replica (indexes created before / after replay) and restored snapshot (indexes created '
+                 'before / after Restore), which are also compared row-by-row with the model. non-trivial = some index changed membership after its '
+                 'creation through a later transaction, or was back-filled over >=2 populated blocks; distinct = hash of the trace',
+         'assumptions': ["index predicates decode the value with the column's own width (Reader.Int on an int16 column is zero-extended by design)",
+                         'quiescent checks only (no transaction is committing while an index is read)'],
+         'tests': [{'run': '^TestC03$',
+                    'checks': {'quick': 250, 'thorough': 2500},
+                    'shards': {'quick': 1, 'thorough': 16},
+                    'timeout': {'quick': 900, 'thorough': 3400}}]},
+ 'C05': {'level': 'exploration',
+         'rule': 'op sequences over {delete, insert, bool, put/merge x 2/4/8-byte, byte strings of length 0..65535} x offset moves '
+                 '{same,+1,+small,>=128,>=16384,>=2^21,backwards,block jump,back to block 0,revisit}: exhaustively all short sequences over an '
+                 '80-letter alphabet (see exhaustive_over) and randomly (rapid) up to length 300; oracle = the written list, compared with '
+                 'Seek+Next, Range per block, Clone, Buffer/Commit codec, Log.Append/Range and a merge->put swap pass. non-trivial = the sequence '
+                 'has >=2 of {negative delta, block switch, >=3-byte varint delta, interleaved blocks, swap with different length}; distinct = hash '
+                 'of the rendered op list',
+         'assumptions': ['offsets < 2^31 and byte strings <= 65535 bytes (format limits)',
+                         'merge operations always carry a value (as every caller in kelindar/column does)'],
+         'tests': [{'run': '^TestC05Exhaustive$', 'timeout': {'quick': 600, 'thorough': 3000}},
+                   {'run': '^TestC05Random$',
+                    'checks': {'quick': 8000, 'thorough': 40000},
+                    'shards': {'quick': 1, 'thorough': 16},
+                    'timeout': {'quick': 600, 'thorough': 3000}}]}}
